@@ -86,7 +86,7 @@ REG = {
     text='Lean 4 theorems over a model of merge_transcriptions_and_logits whose two slice expressions are REGENERATED from the '
          'Python source on every run (translator/merge.py -> Generated/Merge.lean): length law, one logits row per character, '
          'prefix/suffix preservation, zero-overlap and empty parts concatenated unchanged, for any number of parts of any '
-         'length; window splitting covers the line with max_line_width//4 overlap. Loop structure and overlap search tied '
+         'length; the overlap search is SPECIFIED (findBestOverlap_spec: first overlap length of minimum character error rate below 1, 0 iff none is below 1; exact_overlap_found: a literal overlap is always detected and the shortest literal one is returned); window splitting covers the line with max_line_width//4 overlap. Loop structure and overlap search tied '
          'by exact correspondence with the real functions. The regrouping of the window results per line in process_lines is modelled (regroup_flatten, regroup_lengths, line_result: line k gets exactly '
          'its own windows, in order) with exact correspondence per network call; the merged text is independent of the logits (text_independent_of_logits), '
          'compared on the real process_lines(no_logits=True).',
